@@ -15,13 +15,6 @@ Definition emit_site {K D : Type} (f : K -> option D) (order : list K) : list D 
   flat_map (fun k => match f k with Some d => [d] | None => [] end) order.
 
 (* ------------------------------------------------------------------ schema S: sort before output *)
-Fixpoint str_leb (a b : str) : bool :=
-  match a, b with
-  | [], _ => true
-  | _ :: _, [] => false
-  | x :: a', y :: b' => if x <? y then true else if y <? x then false else str_leb a' b'
-  end.
-
 Fixpoint insert (x : str) (l : list str) : list str :=
   match l with
   | [] => [x]
@@ -52,28 +45,23 @@ Definition write_all {V : Type} (m0 : store V) (order : list (str * V)) : store 
   fold_left (fun m kv => kv :: m) order m0.
 
 (* ------------------------------------------------------------------ site: generate_cargo_toml (project.rs) *)
-(* for (crate_name, version_spec) in &self.rust_crate_deps  — NOT sorted *)
+(* entries collected from the HashMap, sorted by crate name, then written (C15.Model.rust_deps) *)
 Definition with_crates (g : gen) (order : list (str * option str)) : gen :=
   mkGen (g_name g) (g_bin g) (g_serde g) (g_tokio g) (g_axum g) order (g_root g) (g_version g).
 Definition manifest_site (g : gen) (order : list (str * option str)) : str :=
   generate_cargo_toml (with_crates g order).
-(* the same loop in schema E *)
-Definition manifest_dep_of (g : gen) (c : str * option str) : option dep :=
-  if mem (fst c) (added g) then None else Some (crate_dep c).
-Definition Known_C12_manifest_order (g : gen) (order : list (str * option str)) : Prop :=
-  (2 <= List.length (rust_deps (with_crates g order)))%nat.
 
 (* ------------------------------------------------------------------ site: constructor call, missing required fields *)
-(* typechecker/check_expr/calls.rs: for (field_name, info) in fields { if !info.has_default && !provided... } *)
+(* typechecker/check_expr/calls.rs: the missing fields are collected from the HashMap, SORTED by name, then reported *)
 Definition missing_field_msg (ty field : str) : str :=
   s "Missing required field '" ++ field ++ s "' when constructing '" ++ ty ++ s "'".
 Definition ctor_diag_of (ty : str) (provided : list str) (f : str * bool) : option str :=
   if negb (snd f) && negb (mem (fst f) provided) then Some (missing_field_msg ty (fst f)) else None.
 Definition ctor_site (ty : str) (provided : list str) (order : list (str * bool)) : list str :=
-  emit_site (ctor_diag_of ty provided) order.
+  emit_site (ctor_diag_of ty provided) (ksort order).
 
 (* ------------------------------------------------------------------ site: trait conformance, required methods *)
-(* typechecker/check_decl.rs (model and class variant): for (method_name, method_info) in &trait_info.methods *)
+(* typechecker/check_decl.rs (model and class variant): the trait's methods are visited SORTED by name *)
 Inductive impl_state := HasBody | Implemented | Missing | Mismatch (expected found : str).
 Definition trait_missing_msg (tr m : str) : str :=
   s "Trait '" ++ tr ++ s "' requires method '" ++ m ++ s "' to be implemented".
@@ -84,19 +72,22 @@ Definition trait_diag_of (tr : str) (m : str * impl_state) : option str :=
   | Mismatch e f => Some (s "mismatch " ++ fst m ++ s ": " ++ e ++ s " vs " ++ f)
   end.
 Definition trait_site (tr : str) (order : list (str * impl_state)) : list str :=
-  emit_site (trait_diag_of tr) order.
+  emit_site (trait_diag_of tr) (ksort order).
 
 (* ------------------------------------------------------------------ site: ModuleCollector::collect (frontend/module.rs) *)
-(* for (path, module) in self.loaded.drain() { if path != entry { result.push(module) } } *)
-Definition collector_site (entry : str) (order : list str) : list str :=
-  emit_site (fun p => if str_eqb p entry then None else Some p) order.
+(* the result follows the Vec `load_order`; the HashMap is only read by key (and then cleared): the
+   hash iteration order is not an input any more *)
+Definition collector_site (entry : str) (load_order : list str) (hash_order : list str) : list str :=
+  emit_site (fun p => if str_eqb p entry then None else Some p) load_order.
+(* ModuleCollector::modules() still hands `self.loaded.values()` to its caller (no caller exists) *)
+Definition collector_modules_site (order : list str) : list str := order.
 
 (* ------------------------------------------------------------------ sites: test runner fixtures (cli/test_runner.rs) *)
-(* verbose listing `for (name, fixture) in &all_fixtures { println!(..) }` and get_autouse_fixtures *)
+(* verbose listing and get_autouse_fixtures: both sorted by fixture name *)
 Definition fixture_listing_site (order : list (str * bool)) : list str :=
-  emit_site (fun f : str * bool => Some (s "  - " ++ fst f)) order.
+  emit_site (fun f : str * bool => Some (s "  - " ++ fst f)) (ksort order).
 Definition autouse_site (order : list (str * bool)) : list str :=
-  emit_site (fun f : str * bool => if snd f then Some (fst f) else None) order.
+  emit_site (fun f : str * bool => if snd f then Some (fst f) else None) (ksort order).
 
 (* ------------------------------------------------------------------ sites: generate_multi / generate_nested (project.rs) *)
 Definition path := list str.
